@@ -208,9 +208,10 @@ NAMES = ['color', 'margin-top', 'b', 'padding', '$var', '$w', '--custom', '--x-y
          '-webkit-transition', 'a', '*zoom', '_height']
 ATOMS = ['10px', 'solid', '#fff', '$var', '-1px', 'no-repeat', '1.5em', '!important', '0', 'auto', 'c', 'x', 'red',
          'calc(100% - 10px)', 'rgba(0, 0, 0, .5)', 'url(data:x)', 'var(--x)', 'url("a;b")', 'map-get($m, a)',
-         'translate(1px,2px)', 'a-b', '100%', '.5', "url('}{')", 'fn((a: b))']
+         'translate(1px,2px)', 'a-b', '100%', '.5', "url('}{')", 'fn((a: b))',
+         '(small: (min: 0, max: 599px), large: 1200px)', 'grid((cols: 3), $gutter: 10px)', 'f((a), b: c)', '((a: b), (c: d), e: f)']
 STR_BITS = ['a', ' ', '{', '}', ';', ':', '(', ')', '/*', '*/', '\\"', "\\'", '\\\\', 'x y', '}{', '//', '\\\n', '-']
-SELECTORS = ['a', '.b', '#c', 'ul > li', 'a:hover', 'a::before', '&:hover', '&.sel', '::before', ':root',
+SELECTORS = ['@include x((a: 1), $b: 2)', '@media ((min-width: 1px) and (max-width: 2px))', 'a', '.b', '#c', 'ul > li', 'a:hover', 'a::before', '&:hover', '&.sel', '::before', ':root',
              ':not(.a):hover', '@media (min-width: 10px)', '@media screen and (min-width:900px)',
              '@supports (display: grid) and (not (display: inline-grid))', '@font-face', '@include mq($from: mobile)',
              'a, b', 'a:nth-child(2n + 1)', '*', 'h1+h2', '.a-b_c', 'a\\:b', '> li', '+ p', 'div.x:first-child::after',
